@@ -808,7 +808,8 @@ def finish(pid, tier, seed, t0, pr, P, cases, metas, impl_obs, status, notes, kn
             'oracle_failures': stats.get('failures', 0),
             'known_findings_seen': known_seen,
             'obligations_broken': stats.get('obligations_broken', []),
-            'exhaustive': False,
+            'exhaustive': bool(getattr(P, 'EXHAUSTIVE', {}).get(tier, False)),
+            'exhaustive_space': getattr(P, 'EXHAUSTIVE_SPACE', None),
             'impl_tree_hash': tree_hash(),
             'notes': notes,
         },
